@@ -11,10 +11,11 @@ T1_MODULES = {
     "C04": ["vt.contracts.utils_maxcounter", "vt.contracts.legs_rules", "vt.contracts.core_stats", "vt.contracts.syntactic"],
     "C06": ["vt.contracts.core_slicing"],
     "C07": ["vt.contracts.utils_maxcounter", "vt.contracts.syntactic", "vt.contracts.slicer_costs"],
-    "C09": ["vt.contracts.con_cost"],
+    "C05": ["vt.contracts.path_convert", "vt.contracts.processor_legs"],
+    "C09": ["vt.contracts.con_cost", "vt.contracts.processor_legs"],
     "C10": ["vt.contracts.path_convert"],
     "C14": ["vt.contracts.reusable_policy"],
-    "C18": ["vt.contracts.legs_rules"],
+    "C18": ["vt.contracts.legs_rules", "vt.contracts.processor_legs"],
     "C19": ["vt.contracts.exponent"],
     "C20": ["vt.contracts.compressed_tracker"],
 }
